@@ -30,10 +30,12 @@ type renderCase struct {
 	Bytes      core.B          `json:"bytes,omitempty"`
 	ErrValue   bool            `json:"json_value_implements_error,omitempty"` // the JSON value is a struct (decoded from json_value) whose type also has an Error method
 	PresetCT   bool            `json:"content_type_preset_by_earlier_handler,omitempty"`
-	Overlap    bool            `json:"overlapping_second_request,omitempty"`               // a second request passes the Renderer middleware while this one holds its Render and has not rendered yet
-	Spread     bool            `json:"options_passed_as_slice_then_overwritten,omitempty"` // Renderer(slice...) and the caller reuses the slice afterwards: the middleware keeps the options it was created with
-	EnvMade    string          `json:"env_when_renderer_was_created,omitempty"`            // process environment while Renderer(...) was called ("" = untouched; serial cases only)
-	EnvServed  string          `json:"env_when_request_was_served,omitempty"`              // process environment while the request was served: what is rendered depends on neither
+	Overlap    bool            `json:"overlapping_second_request,omitempty"`                        // a second request passes the Renderer middleware while this one holds its Render and has not rendered yet
+	Spread     bool            `json:"options_passed_as_slice_then_overwritten,omitempty"`          // Renderer(slice...) and the caller reuses the slice afterwards: the middleware keeps the options it was created with
+	JSONGo     string          `json:"json_go_value,omitempty"`                                     // json: the value is this Go value instead of json_value: nil-slice ([]string(nil)) | nil-map | nil-ptr | empty-slice | nil-in-struct. The body is what the standard encoder writes for it
+	EditCT     bool            `json:"earlier_response_edited_its_content_type_in_place,omitempty"` // an earlier request of the same kind on the same instance appended to element 0 of its own Content-Type header value (in place, through the header map)
+	EnvMade    string          `json:"env_when_renderer_was_created,omitempty"`                     // process environment while Renderer(...) was called ("" = untouched; serial cases only)
+	EnvServed  string          `json:"env_when_request_was_served,omitempty"`                       // process environment while the request was served: what is rendered depends on neither
 }
 
 // c17Payload is an ordinary, fully encodable API payload that happens to implement error as well.
@@ -126,6 +128,7 @@ func genRenderCase(rng *rand.Rand) *renderCase {
 		Overlap:    rng.Intn(5) == 0,
 		PresetCT:   rng.Intn(4) == 0,
 		Spread:     rng.Intn(6) == 0,
+		EditCT:     rng.Intn(8) == 0,
 	}
 	switch c.Kind {
 	case "json":
@@ -134,7 +137,9 @@ func genRenderCase(rng *rand.Rand) *renderCase {
 			panic(err)
 		}
 		c.JSONVal = b
-		if rng.Intn(12) == 0 {
+		if rng.Intn(6) == 0 {
+			c.JSONGo = []string{"nil-slice", "nil-map", "nil-ptr", "empty-slice", "nil-in-struct"}[rng.Intn(5)]
+		} else if rng.Intn(12) == 0 {
 			c.ErrValue = true
 			c.JSONVal, _ = json.Marshal(c17Payload{Code: rng.Intn(600), Message: renderStrings[rng.Intn(len(renderStrings))], Tags: []string{"a", "<b>"}[:rng.Intn(3)]})
 		}
@@ -198,6 +203,18 @@ func renderVerdict(c *renderCase, o renderObs) string {
 			return fmt.Sprintf("body %q is not the given value %q verbatim", clip(string(o.body)), clip(string(c.Bytes)))
 		}
 	case "json":
+		if c.JSONGo != "" {
+			var want bytes.Buffer
+			enc := json.NewEncoder(&want)
+			if c.JSONIndent != "" {
+				enc.SetIndent("", c.JSONIndent)
+			}
+			_ = enc.Encode(c17GoValue(c.JSONGo))
+			if !bytes.Equal(want.Bytes(), o.body) {
+				return fmt.Sprintf("JSON body %q is not what the standard encoder writes for the given value (%s): %q", clip(string(o.body)), c.JSONGo, clip(want.String()))
+			}
+			return ""
+		}
 		var in, out interface{}
 		if err := json.Unmarshal(c.JSONVal, &in); err != nil {
 			return ""
@@ -254,6 +271,27 @@ func renderVerdict(c *renderCase, o renderObs) string {
 	return ""
 }
 
+type c17Holder struct {
+	Tags []string          `json:"tags"`
+	Meta map[string]string `json:"meta"`
+}
+
+func c17GoValue(kind string) interface{} {
+	switch kind {
+	case "nil-slice":
+		return []string(nil)
+	case "nil-map":
+		return map[string]int(nil)
+	case "nil-ptr":
+		return (*c17Payload)(nil)
+	case "empty-slice":
+		return []string{}
+	case "nil-in-struct":
+		return c17Holder{}
+	}
+	return nil
+}
+
 func judgeRender(w *core.W, c *renderCase) {
 	w.Eval()
 	if c.XMLVal != nil {
@@ -295,7 +333,28 @@ func judgeRender(w *core.W, c *renderCase) {
 	// request (X-Who: b) has passed the Renderer middleware and rendered its own plain text.
 	gotRender := make(chan struct{})
 	otherDone := make(chan struct{})
-	final := func(r flamego.Render, req *http.Request) {
+	if c.Kind == "json" && c.JSONGo != "" {
+		jsonIn = c17GoValue(c.JSONGo)
+		w.Count("json-go-value:" + c.JSONGo)
+	}
+	final := func(r flamego.Render, req *http.Request, ctx flamego.Context) {
+		if req.Header.Get("X-Prime") == "1" {
+			// an earlier response of the same kind; afterwards its handler edits ITS OWN header value in place
+			switch c.Kind {
+			case "json":
+				r.JSON(200, 1)
+			case "xml":
+				r.XML(200, xmlItem{K: "k", V: "v"})
+			case "binary":
+				r.Binary(200, []byte("p"))
+			case "text":
+				r.PlainText(200, "p")
+			}
+			if ct := ctx.ResponseWriter().Header()["Content-Type"]; len(ct) > 0 {
+				ct[0] += "; profile=edited-by-an-earlier-response"
+			}
+			return
+		}
 		if c.Overlap && req.Header.Get("X-Who") == "b" {
 			r.PlainText(299, "other-request")
 			return
@@ -380,6 +439,10 @@ func judgeRender(w *core.W, c *renderCase) {
 				<-otherDone
 			}
 		}()
+		if c.EditCT {
+			f.ServeHTTP(&retSpy{h: http.Header{}}, &http.Request{Method: "POST", URL: &url.URL{Path: target}, Header: http.Header{"X-Prime": {"1"}}})
+			w.Count("earlier-response-edited-its-content-type-in-place")
+		}
 		f.ServeHTTP(spy, &http.Request{Method: "POST", URL: &url.URL{Path: target}, Header: http.Header{"X-Who": {"a"}}})
 	}()
 	o.status, o.body, o.ctype = spy.status, spy.body, strings.Join(spy.h.Values("Content-Type"), " | ")
@@ -478,7 +541,7 @@ func runC17(r *core.Run) {
 	ws.Done()
 	ws.Merge()
 	r.GateCounter("environment-varied", 300)
-	for _, k := range []string{"kind:json", "kind:xml", "kind:binary", "kind:text", "where:app", "where:group", "where:route", "custom-charset", "indented:json", "indented:xml", "overlapping-requests", "content-type-preset", "json-value-implementing-error", "nested-renderers", "options-slice-overwritten-after-creation"} {
+	for _, k := range []string{"kind:json", "kind:xml", "kind:binary", "kind:text", "where:app", "where:group", "where:route", "custom-charset", "indented:json", "indented:xml", "overlapping-requests", "content-type-preset", "json-value-implementing-error", "nested-renderers", "options-slice-overwritten-after-creation", "earlier-response-edited-its-content-type-in-place", "json-go-value:nil-slice"} {
 		r.GateCounter(k, 500)
 	}
 	r.Gate("distinct_nontrivial", r.NonTrivialCount(), 5000)
